@@ -21,14 +21,10 @@ def _claim(pid, text, note, technique, design):
 _COMMON_NOTE = ("Trusted: Coq kernel + vm_compute (BigZ/primitive ints only in the executable instance); hand-written Gallina model validated against the code on sampled inputs only; "
                 "harness (free-module group, instrumented merlin copy, MSM log); field / vector-space laws are hypotheses; Merlin/Blake2b as random oracles and knowledge soundness of the "
                 "inner-product argument are NOT proved. No axioms.")
-_claim("C01", "Completeness is proved for the model (textbook weighted-inner-product argument for any number of rounds and extension degree; theorems listed in evidence) and the code-shaped prover and "
-       "verifier models are tied to the implementation by comparing every coordinate of every proof element and every scalar of the final check on the configuration lattice, plus prove-then-verify "
-       "in the three modes over Ristretto and the free-module group.", _COMMON_NOTE,
-       "Coq proof (WIP folding invariant, final identity) + model/implementation correspondence over a free-module group", "5/C01")
-_claim("C02", "The verifier's scalar computation is modelled in the shape of the code and proved equal to closed forms (s-vector recurrence = recursive form, ...); every scalar the implementation feeds to "
-       "its final multiscalar check is compared with the model on honest, mutated and structurally odd proofs, so a differently weighted generator or proof element is visible as a coordinate. "
-       "Cryptographic knowledge soundness is trusted, not proved.", _COMMON_NOTE,
-       "Coq proof (verifier scalar identities) + scalar-by-scalar correspondence of the final multiscalar product", "5/C02")
+_claim("C01", "Completeness is a theorem about the model (C01_completeness, closed under the global context): for every bit length, aggregation m = 2^a <= capacity, extension degree, valid witness, nonce assignment and batch weight, the code-shaped prover's output makes the code-shaped verifier's final multiscalar product vanish (non-zero challenges, y <> 1). It composes the textbook weighted-inner-product completeness for any number of rounds, the range reduction with promises, the refinement of the code-shaped folding loop to the textbook prover, and the C02 verifier equivalence. The prover and verifier models are tied to the implementation by comparing every coordinate of every proof element and every scalar of the final check on the configuration lattice over a free-module group, plus prove-then-verify in the three modes over Ristretto and the free-module group.", _COMMON_NOTE,
+       'Coq proof (completeness of the code-shaped prover against the code-shaped verifier, all sizes) + coordinate-level model/implementation correspondence over a free-module group', "5/C01")
+_claim("C02", 'C02_verifier_equiv (closed under the global context): for ARBITRARY proof elements, statement and weight, the multiscalar product the optimised verifier evaluates (s-vector recurrence, running powers, doubling construction of d and its sum, closed-form geometric sum, batched inverses) equals weight * (right-hand side - left-hand side) of the textbook Bulletproofs+ verification equation written without optimisation (Model/RangeSpec.v), for every bit length, aggregation, round count and extension degree; hence it vanishes iff the textbook verifier accepts. Every scalar the implementation feeds to its final multiscalar check is compared with the model on honest, mutated and structurally odd proofs. Knowledge soundness of the textbook protocol is trusted, not proved.', _COMMON_NOTE,
+       'Coq proof (optimised verifier = textbook verifier for arbitrary proofs, all sizes) + scalar-by-scalar correspondence of the final multiscalar product', "5/C02")
 _claim("C03", "Model of chunking, consistency guards and batch accumulation; theorems about the model (chunks cover the batch, result alignment, shape refusals) and differential runs: batch verdict vs "
        "conjunction of singleton verdicts vs model for sizes around every chunk boundary, eight kinds of invalid member at first/last/boundary/random positions, permutations, mixed capacities.",
        _COMMON_NOTE, "Coq proof (chunk cover, guards) + relational differential testing of batch vs singletons + model correspondence", "5/C03")
@@ -45,8 +41,8 @@ _claim("C07", "Promise handling (a_L offset, transcript absorption with None = 0
 _claim("C08", "Weight derivation modelled as transcript operations (all of r1, s1, d1 absorbed; one weight per proof multiplying every term); adaptive cancellation attacks computed from observed weights must be "
        "rejected and every response scalar must change the weight ratios; log and scalars compared with the model.", _COMMON_NOTE,
        "Coq proof (weight-transcript structure) + adaptive attack search + log correspondence", "5/C08")
-_claim("C09", "Mask recovery formula modelled; recovered masks compared with the blinding factors position by position for all bit lengths and extension degrees, batches mixing seeded/unseeded/aggregated members.",
-       _COMMON_NOTE, "Coq proof (recovery identity) + differential runs", "5/C09")
+_claim("C09", "C09_prover_mask_recovered (closed under the global context): for one commitment, any bit length / capacity / extension degree / promise / nonces and non-zero challenges, the verifier's recovery formula applied to the responses the code-shaped prover emits, queried with the prover's own (seed-derived) nonces, returns exactly the blinding vector, every component in order; result alignment in batches and None for unseeded / verify-only are theorems too. Recovered masks are compared with the blinding factors position by position on the implementation for all bit lengths and extension degrees, batches mixing seeded/unseeded/aggregated members.", _COMMON_NOTE,
+       'Coq proof (end-to-end recovery identity on prover + verifier models) + differential runs', "5/C09")
 _claim("C10", "Verdict path is independent of seed and mode in the model by construction (theorems), compared on valid/invalid proofs x seeds (incl. seeds differing in one byte) x modes.", _COMMON_NOTE,
        "Coq proof (non-interference of the seed) + differential runs", "5/C10")
 _claim("C12", "Padding, table owner and accumulation modelled; every (prover capacity, verifier capacity) pair and mixed-capacity batches run on the code and compared with the model; proofs must be byte-identical "
